@@ -1,5 +1,6 @@
 import Dmn.Model.Sexp
 import Dmn.Model.Temporal
+import Dmn.Model.TemporalZone
 
 /-! Driver handler for C14.
 
@@ -7,6 +8,8 @@ import Dmn.Model.Temporal
   `date time dt xdt dur at`; `known` tells whether the zone name occurring in the text (if any) is
   in the zone database (the oracle).
 * `(c14 timenum (c e) (c e) (c e) <none|ns>)` — `time(h, m, s[, offset duration])` from decimals.
+* `(c14 zonelocal <initial> (<instant> <offset> …) (<local> …))` — for each wall-clock reading the offsets
+  in force for it under the rules given (`ZoneRules.offsetsForLocal`), as `((o …) (o …) …)`.
 * `(c14 print <known> <value>)` — `string(v)` and the value read back from that text by the
   constructor of the value's own kind.
 -/
@@ -98,6 +101,21 @@ def handle (args : List Sexp) : String :=
       | some t => valueStr (.time t)
       | none => "null"
     | _, _, _, _ => "(error bad-args)"
+  | [.atom "zonelocal", initial, .list trs, .list locals] =>
+    let rec pairs : List Sexp → Option (List (Int × Int))
+      | [] => some []
+      | a :: b :: r => do
+        let a ← Sexp.int? a
+        let b ← Sexp.int? b
+        let r ← pairs r
+        pure ((a, b) :: r)
+      | _ => none
+    match Sexp.int? initial, pairs trs, locals.mapM Sexp.int? with
+    | some i, some t, some ls =>
+      let z : ZoneRules := ⟨i, t⟩
+      let one (l : Int) : String := "(" ++ " ".intercalate ((z.offsetsForLocal l).map toString) ++ ")"
+      "(" ++ " ".intercalate (ls.map one) ++ ")"
+    | _, _, _ => "(error bad-args)"
   | _ => "(error bad-request)"
 
 end Dmn.Driver.C14
